@@ -1,8 +1,159 @@
-(* Properties/C14.v — placeholder until the proofs are assembled. *)
-From Coq Require Import ZArith QArith List.
+(* Properties/C14.v — similarity metrics equal their formulas, are symmetric and
+   bounded.  Statements only; proofs in Proofs/SimProofs.v.  Each metric is
+   "formula applied to parts": the theorems say what the parts are (in the
+   graph-theoretic vocabulary of C13), that they are the same in both argument
+   orders, and what range the formula has on them. *)
+From Coq Require Import ZArith QArith List Bool.
 Import ListNotations.
-Require Import WnV.Base.Sx WnV.Model.Taxonomy WnV.Model.Similarity.
-Example C14_model_runs :
-  wup_parts (hyp_of [(1, [3]); (2, [3]); (3, [4])])%Z (fun _ => 0%Z) 6 1%Z 2%Z false = Val (1, 1, 2)%nat.
-Proof. vm_compute. reflexivity. Qed.
-Print Assumptions C14_model_runs.
+Require Import WnV.Base.Sx WnV.Model.Taxonomy WnV.Model.Similarity WnV.Proofs.TaxSpec
+        WnV.Proofs.TaxAssembly WnV.Proofs.SimProofs.
+
+(* ---- path = 1/(p+1): in [0,1], 1 exactly for identical synsets, 0 exactly when unconnected *)
+Theorem C14_path_range : forall d, 0 <= path_q d /\ path_q d <= 1.
+Proof. exact path_q_range. Qed.
+Print Assumptions C14_path_range.
+Theorem C14_path_one_iff_distance_zero : forall d, path_q d == 1 <-> d = Some 0%nat.
+Proof. exact path_q_one_iff. Qed.
+Print Assumptions C14_path_one_iff_distance_zero.
+Theorem C14_path_zero_iff_unconnected : forall d, path_q d == 0 <-> d = None.
+Proof. exact path_q_zero_iff. Qed.
+Print Assumptions C14_path_zero_iff_unconnected.
+Theorem C14_path_distance_zero_iff_same : forall hyp cls V fuel a b,
+    graph_ok hyp V -> In a V -> In b V ->
+    (path_parts hyp cls fuel a b false = Val (Some 0%nat) <-> (a = b)).
+Proof. exact path_parts_zero_iff_same. Qed.
+Print Assumptions C14_path_distance_zero_iff_same.
+Theorem C14_path_symmetric : forall hyp cls V fuel a b sr r r',
+    graph_ok hyp V -> In a V -> In b V -> sr = false ->
+    path_parts hyp cls fuel a b sr = Val r -> path_parts hyp cls fuel b a sr = Val r' -> r = r'.
+Proof. exact path_parts_sym. Qed.
+Print Assumptions C14_path_symmetric.
+
+(* ---- wup = 2k/(i+j+2k) on the documented parts: in (0,1], 1 for identical synsets, symmetric *)
+Theorem C14_wup_parts : forall hyp cls fuel a b sr i j k,
+    wup_parts hyp cls fuel a b sr = Val (i, j, k) ->
+    exists lcs ls md, lowest_common_hypernyms hyp fuel a b sr = Some (lcs :: ls)
+      /\ shortest_path_len hyp fuel a lcs sr = Some (Some i)
+      /\ shortest_path_len hyp fuel b lcs sr = Some (Some j)
+      /\ max_depth hyp fuel lcs false = Some md /\ k = S md.
+Proof. exact wup_parts_spec. Qed.
+Print Assumptions C14_wup_parts.
+Theorem C14_wup_range : forall i j k, (0 < k)%nat -> 0 < wup_q (i, j, k) /\ wup_q (i, j, k) <= 1.
+Proof. exact wup_q_range. Qed.
+Print Assumptions C14_wup_range.
+Theorem C14_wup_self : forall hyp cls fuel a md,
+    max_depth hyp fuel a false = Some md ->
+    wup_parts hyp cls fuel a a false = Val (0%nat, 0%nat, S md).
+Proof. exact wup_parts_self. Qed.
+Print Assumptions C14_wup_self.
+Theorem C14_wup_one_iff : forall i j k, (0 < k)%nat -> (wup_q (i, j, k) == 1 <-> (i = 0 /\ j = 0)%nat).
+Proof. exact wup_q_one_iff. Qed.
+Print Assumptions C14_wup_one_iff.
+Theorem C14_wup_symmetric : forall hyp cls V fuel a b i j k i' j' k',
+    graph_ok hyp V -> In a V -> In b V ->
+    wup_parts hyp cls fuel a b false = Val (i, j, k) ->
+    wup_parts hyp cls fuel b a false = Val (i', j', k') ->
+    (i', j', k') = (j, i, k).
+Proof. exact wup_parts_sym. Qed.
+Print Assumptions C14_wup_symmetric.
+Theorem C14_wup_formula_symmetric : forall i j k, wup_q (i, j, k) == wup_q (j, i, k).
+Proof. exact wup_q_sym. Qed.
+Print Assumptions C14_wup_formula_symmetric.
+
+(* ---- lch = -log((p+1)/(2d)): parts, symmetry, and no pair above the synset with itself
+   (the argument of the antitone -log is smallest for p = 0) *)
+Theorem C14_lch_parts : forall hyp cls fuel a b maxd sr p q,
+    lch_parts hyp cls fuel a b maxd sr = Val (p, q) ->
+    (0 < maxd)%Z /\ q = (2 * maxd)%Z
+    /\ exists d, p = S d /\ shortest_path_len hyp fuel a b sr = Some (Some d).
+Proof. exact lch_parts_spec. Qed.
+Print Assumptions C14_lch_parts.
+Theorem C14_lch_symmetric : forall hyp cls V fuel a b maxd r r',
+    graph_ok hyp V -> In a V -> In b V ->
+    lch_parts hyp cls fuel a b maxd false = Val r -> lch_parts hyp cls fuel b a maxd false = Val r' -> r = r'.
+Proof. exact lch_parts_sym. Qed.
+Print Assumptions C14_lch_symmetric.
+Theorem C14_lch_self_maximal : forall d maxd, (0 < maxd)%Z ->
+    lch_arg_q (1%nat, (2 * maxd)%Z) <= lch_arg_q (S d, (2 * maxd)%Z).
+Proof. exact lch_arg_self_minimal. Qed.
+Print Assumptions C14_lch_self_maximal.
+
+(* ---- errors *)
+Theorem C14_incompatible_pos : forall hyp cls fuel a b sr maxd,
+    cls a <> cls b ->
+    path_parts hyp cls fuel a b sr = WnError
+    /\ wup_parts hyp cls fuel a b sr = WnError
+    /\ lch_parts hyp cls fuel a b maxd sr = WnError.
+Proof. exact incompatible_pos_error. Qed.
+Print Assumptions C14_incompatible_pos.
+Theorem C14_wup_no_common : forall hyp cls fuel a b sr,
+    cls a = cls b -> lowest_common_hypernyms hyp fuel a b sr = Some [] ->
+    wup_parts hyp cls fuel a b sr = WnError.
+Proof. exact wup_no_common_error. Qed.
+Print Assumptions C14_wup_no_common.
+Theorem C14_lch_no_path : forall hyp cls fuel a b maxd sr,
+    shortest_path_len hyp fuel a b sr = Some None -> lch_parts hyp cls fuel a b maxd sr = WnError.
+Proof. exact lch_no_path_error. Qed.
+Print Assumptions C14_lch_no_path.
+
+(* ---- IC-based metrics, for any value type F with a comparison gt that is the strict part
+   of a total preorder (Python's > on the floats that occur) *)
+(* res = the maximum information content over the common subsumers *)
+Theorem C14_res_is_max_ic :
+  forall hyp cls (F : Type) (gt : F -> F -> bool) (icv : node -> option F),
+    (forall x, gt x x = false) ->
+    (forall x y z, gt x y = true -> gt y z = true -> gt x z = true) ->
+    (forall x y z, gt x y = false -> gt y z = false -> gt x z = false) ->
+    forall V fuel a b c v,
+      graph_ok hyp V -> In a V -> In b V ->
+      res_choice hyp cls fuel F gt icv a b = Val (c, v) ->
+      reach hyp a c /\ reach hyp b c /\ icv c = Some v
+      /\ (forall c' v', reach hyp a c' -> reach hyp b c' -> icv c' = Some v' -> gt v' v = false).
+Proof. exact res_choice_spec. Qed.
+Print Assumptions C14_res_is_max_ic.
+
+(* jcn, lin: c0 is a lowest common hypernym of highest weight *)
+Theorem C14_most_informative_lcs :
+  forall hyp cls (F : Type) (gt : F -> F -> bool) (wt : node -> option F),
+    (forall x, gt x x = false) ->
+    (forall x y z, gt x y = true -> gt y z = true -> gt x z = true) ->
+    (forall x y z, gt x y = false -> gt y z = false -> gt x z = false) ->
+    forall fuel a b c0,
+      most_informative_lcs hyp cls fuel F gt wt a b = Val c0 ->
+      exists ls w0, lowest_common_hypernyms hyp fuel a b false = Some ls /\ In c0 ls /\ wt c0 = Some w0
+        /\ (forall c, In c ls -> cls c = cls a)
+        /\ (forall c w, In c ls -> wt c = Some w -> gt w w0 = false).
+Proof. exact most_informative_lcs_spec. Qed.
+Print Assumptions C14_most_informative_lcs.
+
+Theorem C14_res_symmetric : forall hyp cls (F : Type) (gt : F -> F -> bool) icv V fuel a b c v c' v',
+    graph_ok hyp V -> In a V -> In b V ->
+    res_choice hyp cls fuel F gt icv a b = Val (c, v) ->
+    res_choice hyp cls fuel F gt icv b a = Val (c', v') -> (c, v) = (c', v').
+Proof. exact res_choice_sym. Qed.
+Print Assumptions C14_res_symmetric.
+Theorem C14_jcn_symmetric : forall hyp cls (F : Type) (gt : F -> F -> bool) wt icv V fuel a b x y z x' y' z',
+    graph_ok hyp V -> In a V -> In b V ->
+    jcn_parts hyp cls fuel F gt wt icv a b = Val (x, y, z) ->
+    jcn_parts hyp cls fuel F gt wt icv b a = Val (x', y', z') -> (x', y', z') = (y, x, z).
+Proof. exact jcn_parts_sym. Qed.
+Print Assumptions C14_jcn_symmetric.
+Theorem C14_lin_symmetric : forall hyp cls (F : Type) (gt : F -> F -> bool) wt icv V fuel a b x y z x' y' z',
+    graph_ok hyp V -> In a V -> In b V ->
+    lin_parts hyp cls fuel F gt wt icv a b = Val (x, y, z) ->
+    lin_parts hyp cls fuel F gt wt icv b a = Val (x', y', z') -> (x', y', z') = (y, x, z).
+Proof. exact lin_parts_sym. Qed.
+Print Assumptions C14_lin_symmetric.
+Theorem C14_ic_no_common : forall hyp cls (F : Type) (gt : F -> F -> bool) wt fuel a b,
+    cls a = cls b -> lowest_common_hypernyms hyp fuel a b false = Some [] ->
+    most_informative_lcs hyp cls fuel F gt wt a b = WnError.
+Proof. exact ic_no_common_error. Qed.
+Print Assumptions C14_ic_no_common.
+
+(* non-vacuity *)
+Example C14_nonvacuous :
+  wup_parts (hyp_of [(1, [3]); (2, [3]); (3, [4])])%Z (fun _ => 0%Z) 6 1%Z 2%Z false = Val (1, 1, 2)%nat
+  /\ Qeq_bool (wup_q (1, 1, 2)%nat) (2 # 3) = true
+  /\ path_parts (hyp_of [(1, [3]); (2, [3]); (3, [4])])%Z (fun _ => 0%Z) 6 1%Z 2%Z false = Val (Some 2%nat).
+Proof. vm_compute. repeat split; reflexivity. Qed.
+Print Assumptions C14_nonvacuous.
